@@ -6,6 +6,7 @@ Please see the developer documentation for more details on strax' storage hierar
 
 from ast import literal_eval
 from concurrent.futures import wait
+import json
 import logging
 from packaging import version
 import sys
@@ -383,11 +384,15 @@ class StorageFrontend:
         self, lineage: dict, desired_lineage: dict, fuzzy_for: tuple, fuzzy_for_options: tuple
     ):
         """Return if lineage matches desired_lineage given ignore options."""
-        # A lineage read back from (json) metadata has lists where the original has tuples
+        # A lineage read back from (json) metadata has lists where the original has tuples,
+        # and strings where the original has other dictionary keys: compare what json makes of both
+        def normalize(x):
+            return strax.hashablize(json.loads(json.dumps(x, cls=strax.NumpyJSONEncoder)))
+
         if not (fuzzy_for or fuzzy_for_options):
-            return strax.hashablize(lineage) == strax.hashablize(desired_lineage)
+            return normalize(lineage) == normalize(desired_lineage)
         args = [fuzzy_for, fuzzy_for_options]
-        return strax.hashablize(self._filter_lineage(lineage, *args)) == strax.hashablize(
+        return normalize(self._filter_lineage(lineage, *args)) == normalize(
             self._filter_lineage(desired_lineage, *args)
         )
 
